@@ -92,6 +92,18 @@ Definition mon_mint_cap (n : Z) (pre post : State) : bool :=
 Definition node_margin (s : State) : Z := balance s (macc NODE) - owed_node_collateral s - owed_node_rewards s.
 Definition total_debt (s : State) : Z := sumz (sitems (debts s)) snd.
 
+(** C20: a node that holds the super role after the step and did not hold it before was promoted by
+    the step: at that moment it must have declared the full service status, have pledged the threshold
+    capacity and hold the required fraction of its validator's shares (all on the post-state) *)
+Definition mon_promotion_ok (pre post : State) : bool :=
+  all_s (nodes post) (fun a n =>
+    if (n_role n =? 1) && negb (match nodes pre !! a with Some n0 => n_role n0 =? 1 | None => false end) then
+      (Z.land (n_status n) STATUS_SUPER_REQ =? STATUS_SUPER_REQ) &&
+      match pledges post !! a with
+      | Some p => (np_vthreshold (nparams post) <=? pl_total p) && check_share post a (n_val n) 0
+      | None => false end
+    else true).
+
 Definition op_monitors (cx : Ctx) (pre : State) (op : Op) (accepted : bool) (post : State) : list (string * bool) :=
   (* frames that hold for every operation, accepted or not *)
   [ ("frame.models", touches_models op || models_same pre post);
@@ -102,6 +114,7 @@ Definition op_monitors (cx : Ctx) (pre : State) (op : Op) (accepted : bool) (pos
                                    (VL (map (fun kv => VL [VS kv.1; kv.2])
                                             (filter (fun kv => negb (str_prefix "node.Fault" kv.1 || String.eqb kv.1 "node.FishingReward")) (enc_state post))))
                      | _ => faults_same pre post end);
+    ("super.promotion_ok", mon_promotion_ok pre post);
     ("frame.supply", match op with OBeginBlock => supply pre <=? supply post | _ => supply pre =? supply post end);
     ("rollback.clean", mon_rollback_clean pre post);
     ("rollback.refund_exact", match op with OCancel _ _ _ | OEndBlock _ => mon_rollback_refund pre post | _ => true end);
